@@ -139,9 +139,13 @@ SameId(a, b) == /\ a.coop = b.coop /\ a.country = b.country /\ a.map = b.map /\ 
                 /\ a.config = b.config /\ a.beh = b.beh /\ a.pred = b.pred /\ a.ver = b.ver
 
 (* ------------------------------- solution ids ------------------------------- *)
-(* a solution id: [vs |-> <<[m, t], ...>>, cs |-> <<cost, ...>>, f |-> scenario id]; the version is f.ver *)
+(* a solution id: [vs |-> <<[m, t], ...>>, cs |-> <<cost, ...>>, pp |-> <<planning problem id, ...>>, f |-> scenario id];
+   the version is f.ver.  Position i of vs / cs / pp is the i-th planning problem solution: the lists of the text are
+   POSITIONAL, the i-th vehicle id and the i-th cost id belong to the i-th planning problem solution, which is the
+   i-th trajectory node of a written document.  pp is not printed. *)
 VehWord(v) == v.m \o ToString(v.t)                   \* "PM" and 1 -> "PM1"
 ValidSol(s) == /\ Len(s.vs) >= 1 /\ Len(s.cs) = Len(s.vs) /\ Valid(s.f)
+               /\ Len(s.pp) = Len(s.vs) /\ \A i, j \in 1..Len(s.pp) : s.pp[i] >= 0 /\ (i # j => s.pp[i] # s.pp[j])
                /\ \A i \in 1..Len(s.vs) : s.vs[i] \in Vehicles /\ s.cs[i] \in Supported(s.vs[i].m)
 NormalizeSol(s) == [s EXCEPT !.f = Normalize(@)]
 
@@ -184,6 +188,29 @@ ParseSol(toks) ==
                                    f |-> Parse(g[3], g[4][1].s).id]]
 SameSol(a, b) == a.vs = b.vs /\ a.cs = b.cs /\ SameId(a.f, b.f)
 
+(* ---- which planning problem a vehicle / cost id belongs to ---- *)
+IsPermOf(a, b) == /\ Len(a) = Len(b) /\ {a[i] : i \in 1..Len(a)} = {b[i] : i \in 1..Len(b)}
+                  /\ \A i, j \in 1..Len(a) : i # j => a[i] # a[j]
+IndexOf(seq, x) == CHOOSE j \in 1..Len(seq) : seq[j] = x
+(* the same solution with its planning problem solutions listed in the order ord (a permutation of s.pp) *)
+Arrange(s, ord) == [vs |-> [i \in 1..Len(ord) |-> s.vs[IndexOf(s.pp, ord[i])]],
+                    cs |-> [i \in 1..Len(ord) |-> s.cs[IndexOf(s.pp, ord[i])]], pp |-> ord, f |-> s.f]
+Assignment(vs, cs, pp) == {<<pp[i], vs[i].m, vs[i].t, cs[i]>> : i \in 1..Len(pp)}     \* planning problem -> (model, type, cost)
+(* toks is a solution id whose i-th vehicle / cost id is the one solution s gives the planning problem nodes[i] *)
+AlignedText(s, toks, nodes) ==
+  LET p == ParseSol(toks)
+  IN /\ p.ok = 1 /\ IsPermOf(nodes, s.pp) /\ Len(p.sol.vs) = Len(nodes)
+     /\ \A i \in 1..Len(nodes) : LET j == IndexOf(s.pp, nodes[i]) IN p.sol.vs[i] = s.vs[j] /\ p.sol.cs[i] = s.cs[j]
+(* a written document: the id text plus one trajectory node per planning problem solution (its planning problem id and
+   its trajectory type = the vehicle model whose states it holds); reading pairs the i-th ids with the i-th node and
+   refuses a model that does not fit the node's trajectory type *)
+Doc(s, text) == [bid |-> text, nodes |-> s.pp, tt |-> [i \in 1..Len(s.vs) |-> s.vs[i].m]]
+ReadDoc(d) ==
+  LET p == ParseSol(d.bid)
+  IN IF p.ok = 0 THEN [ok |-> 0]
+     ELSE IF Len(p.sol.vs) # Len(d.nodes) \/ (\E i \in 1..Len(d.nodes) : p.sol.vs[i].m # d.tt[i]) THEN [ok |-> 0]
+     ELSE [ok |-> 1, sol |-> [vs |-> p.sol.vs, cs |-> p.sol.cs, pp |-> d.nodes, f |-> p.sol.f]]
+
 (* ---- laws checked by TLC on the specification itself ---- *)
 GrammarLaw(id)   == Accepts(IdGrammar, PrintId(id))
 GrammarTight(id) == ~Accepts(IdGrammar, Tail(PrintId(id))) /\ ~Accepts(IdGrammar, PrintId(id) \o <<Sep("-")>>)
@@ -192,9 +219,14 @@ ParseLaw(id)     == LET p == Parse(PrintId(id), id.ver) IN p.ok = 1 /\ p.id = No
 ReprintLaw(id)   == PrintId(Parse(PrintId(id), id.ver).id) = PrintId(id)
 NormalLaw(id)    == Valid(Normalize(id)) /\ Normalize(Normalize(id)) = Normalize(id)
 SolGrammarLaw(s) == AcceptsSol(PrintSol(s))
-SolParseLaw(s)   == LET p == ParseSol(PrintSol(s)) IN p.ok = 1 /\ p.sol = NormalizeSol(s)
+SolParseLaw(s)   == LET p == ParseSol(PrintSol(s)) IN p.ok = 1 /\ SameSol(p.sol, NormalizeSol(s))
 SolReprintLaw(s) == PrintSol(ParseSol(PrintSol(s)).sol) = PrintSol(s)
 SolLaws(s)       == LET t == PrintSol(s)               \* the three solution laws with the printed text shared
                         p == ParseSol(t)               \* (used for the large thorough scope)
-                    IN AcceptsSol(t) /\ p.ok = 1 /\ p.sol = NormalizeSol(s) /\ PrintSol(p.sol) = t
+                    IN AcceptsSol(t) /\ p.ok = 1 /\ SameSol(p.sol, NormalizeSol(s)) /\ PrintSol(p.sol) = t
+(* text = the id printed for s (PrintSol(s) on the specification): aligned with the planning problems, and a
+   document written with it reads back with every planning problem keeping its (model, type, cost) *)
+SolAlignLaw(s, text) == /\ AlignedText(s, text, s.pp)
+                        /\ LET r == ReadDoc(Doc(s, text))
+                           IN r.ok = 1 /\ Assignment(r.sol.vs, r.sol.cs, r.sol.pp) = Assignment(s.vs, s.cs, s.pp)
 =================================================================================
